@@ -28,7 +28,8 @@ def main():
     try:
         try:
             r = verus_unit.run_unit(unit, repo, scratch, features=feats, tag=tag,
-                                    multiple_errors=40 if unit == 'decimal-ast' else 4)
+                                    multiple_errors=40 if unit == 'decimal-ast' else 4,
+                                    always_split=['eval'] if unit == 'number-ast' else ())
         except verus_unit.Undecided as e:
             print('UNDECIDED', e)
             return 2
